@@ -163,6 +163,21 @@ std::string describe_tasks() {
 }
 
 bool active() { return G.running && me != nullptr; }
+static void reschedule(YieldKind k);
+// a possible preemption point at a call boundary (library function entry, GLib container call)
+void maybe_preempt_at_call() {
+	if (G.p.fn_yield_permille <= 0) return;
+	if (G.p.have_decisions) {
+		// replay: a preemption at a call boundary is only taken when the decision list says so
+		while (G.dec_pos < G.p.decisions.size() && G.p.decisions[G.dec_pos].first <= G.step) G.dec_pos++;
+		if (G.dec_pos < G.p.decisions.size() && G.p.decisions[G.dec_pos].first == G.step + 1) reschedule(Y_FN);
+		else { G.step++; G.st.steps++; }   // keep step numbering identical to the recorded run
+	} else if (G.rng.chance((uint32_t) G.p.fn_yield_permille)) {
+		reschedule(Y_FN);
+	} else {
+		G.step++; G.st.steps++;
+	}
+}
 const char *current_api() { Task *t = G.cur; return (t && t->cur_api) ? t->cur_api : "(no api call)"; }
 Task *self() { return me; }
 int self_id() { return me ? me->id : -1; }
@@ -643,18 +658,7 @@ void __cyg_profile_func_enter(void *fn, void *site) {
 	SimScope simscope_;
 	g_reach[fn]++;
 	if (g_hooks.on_fn_enter) g_hooks.on_fn_enter(fn, t);
-	if (G.p.fn_yield_permille > 0) {
-		if (G.p.have_decisions) {
-			// replay: a preemption at a function entry is only taken when the decision list says so
-			while (G.dec_pos < G.p.decisions.size() && G.p.decisions[G.dec_pos].first <= G.step) G.dec_pos++;
-			if (G.dec_pos < G.p.decisions.size() && G.p.decisions[G.dec_pos].first == G.step + 1) reschedule(Y_FN);
-			else { G.step++; G.st.steps++; }   // keep step numbering identical to the recorded run
-		} else if (G.rng.chance((uint32_t) G.p.fn_yield_permille)) {
-			reschedule(Y_FN);
-		} else {
-			G.step++; G.st.steps++;
-		}
-	}
+	sim::maybe_preempt_at_call();
 }
 void __cyg_profile_func_exit(void *fn, void *site) { (void) fn; (void) site; }
 
@@ -984,6 +988,9 @@ void lockset_reset_counters() { g_ls_checks = g_ls_shared = 0; }
 static void ls_forget(void *obj) { if (!g_ls.empty()) g_ls.erase(obj); }
 static void ls_access(void *obj, bool write, const char *fn, void *site) {
 	Task *t = me;
+	// GLib is not instrumented: without this a task could never be preempted between two container operations that have no
+	// library call between them (e.g. emptying and refilling an array). Only plans that ask for it (replays of older plans keep their steps).
+	if (t && G.running && G.cur == t && G.p.glib_yield) maybe_preempt_at_call();
 	if (!g_ls_armed || !t || !G.running || !obj) return;
 	g_ls_checks++;
 	LsObj &o = g_ls[obj];
